@@ -165,9 +165,12 @@ func runC06(c *Ctx) {
 	// returns) is skipped and the remaining sources are still applied
 	nAb := 0
 	for _, w := range writers {
-		for _, cs := range c.Calls(w.SSA, Invoke("pcache.ProviderSource.FetchAll")) {
-			errv := c.Result(cs, 1)
-			for _, b := range w.SSA.Blocks {
+		// (the fetch loop may live in an unexported helper of the writer: the rule is applied in the function the
+		// call sits in, whose error the writer must then hand on — covered by the must-publish rule's early returns)
+		for _, st := range c.CallsInl(w.SSA, Invoke("pcache.ProviderSource.FetchAll"), 2) {
+			fn := st.In.Parent()
+			errv := c.Result(st.CallSite, 1)
+			for _, b := range fn.Blocks {
 				ret, ok := b.Instrs[len(b.Instrs)-1].(*ssa.Return)
 				if !ok {
 					continue
@@ -177,7 +180,7 @@ func runC06(c *Ctx) {
 				}
 				nAb++
 				_, ctxDone := c.GuardedB(b, EqNil(Invoke("context.Context.Err")), false)
-				c.Check(ctxDone, "C06.P1-abandon-only-when-cancelled", w.Name+" › return on a source error", ret.Pos(), "a source error ends the round only on the ctx.Err() != nil edge", "the round is abandoned on a source's error without testing the caller's own context: one failing source keeps the other sources' newer records and new providers from being applied, while the refresh reports no error")
+				c.Check(ctxDone, "C06.P1-abandon-only-when-cancelled", c.short(fn.String())+" › return on a source error", ret.Pos(), "a source error ends the round only on the ctx.Err() != nil edge", "the round is abandoned on a source's error without testing the caller's own context: one failing source keeps the other sources' newer records and new providers from being applied, while the refresh reports no error")
 			}
 		}
 	}
